@@ -425,6 +425,35 @@ func ruleRecoverability(c *Ctx, r *Report) {
 					good = false
 				}
 			}
+			if !good && pkg == pkgF13 {
+				// the other form: the state machine itself sends the cookie request again when the
+				// peer repeats a handshake message while it sits in that flight
+				if tr := c.Fn("(*" + pkgHS + ".fsm13).transitionAfterACK"); tr != nil {
+					flights := c.enumConsts(pkgF13, "Flight")
+					states := c.enumConsts(pkgHS, "State")
+					isStateT := func(t types.Type) bool { return namedOrType(t) == pkgHS+".State" }
+					w2 := &Walk{Fn: tr, Follow: func(f *ssa.Function) bool { return inModule(f) }, Assume: func(x ssa.Value) (Val, bool) {
+						if o, f, _, ok := fieldLoad(x); ok && o == pkgHS+".fsm13" {
+							switch f {
+							case "retransmit":
+								return vBool(false), true
+							case "currentFlight":
+								return vInt(flights["Flight2"]), true
+							}
+						}
+						if p, ok := x.(*ssa.Parameter); ok {
+							if bt, isB := p.Type().Underlying().(*types.Basic); isB && bt.Kind() == types.Bool {
+								return vBool(true), true // the peer repeated a handshake message
+							}
+						}
+						return unknown, false
+					}}
+					if producesState(w2, tr, isStateT, states["StateSending"]) != nil {
+						r.OK(rule, pkg+".flight2Parse", c.pos(tr.Pos()), "a repeated ClientHello makes the state machine send the cookie request again (transitionAfterACK, peer retransmission)")
+						continue
+					}
+				}
+			}
 			r.Check(good, rule, pkg+".flight2Parse", c.pos(parser.Pos()), "a repeated first ClientHello re-enters flight0Parse, which makes the FSM send the cookie request again", "the cookie request is never re-sent: the timer skips it (by design) and the parser of the second ClientHello does not fall back to the first-ClientHello parser when the client repeats its first hello, so a single lost cookie request stalls the handshake")
 		}
 	}
